@@ -145,12 +145,13 @@ VARIABLES
   reads,      \* reader observations: sequence of [a, from, to, files]
   deleted,    \* set of [f, by, i, at]: every file deletion that happened
   initBody,   \* the metadata version that was current initially (ghost, never changes)
-  joined      \* identities (table uuids) the callers of create/open ended up on (ghost)
+  joined,     \* identities (table uuids) the callers of create/open ended up on (ghost)
+  scanning    \* actors whose pointer resolution in progress found the pointer unusable and will scan the directory
 
 storageVars == <<hint, metas, metaTime, lists, mans, present, ftime, markers, mtimeM>>
 actorVars   == <<pc, opi, att, loc>>
 ghostVars   == <<commitLog, serial, tsOf, sidOfOp, outcomes, reads, deleted, initBody, joined>>
-vars == <<storageVars, clock, lockHolder, rlock, actorVars, faults, lease, ghostVars>>
+vars == <<storageVars, clock, lockHolder, rlock, actorVars, faults, lease, ghostVars, scanning>>
 
 Committers == {a \in Actors : Role[a] = "committer"}
 Readers    == {a \in Actors : Role[a] = "reader"}
@@ -172,6 +173,12 @@ CanResolve(name) ==
   IF HintedName # NoName THEN name = HintedName
   ELSE IF BestSet = {} THEN name = NoName ELSE name \in BestSet
 
+\* _current_version_info is NOT atomic: it reads the pointer and, when that is unusable, lists the directory LATER.
+\* SeeHintUnusable is the first step; the resolving action that follows then takes what the scan finds at that time,
+\* whatever the pointer has become meanwhile - including the metadata file of a commit that has not flipped it yet.
+CanResolveScan(name) == IF BestSet = {} THEN name = NoName ELSE name \in BestSet
+Resolves(a, name) == IF a \in scanning THEN CanResolveScan(name) ELSE CanResolve(name)
+
 \* refresh() takes the handle's thread lock: it waits while another actor of the same handle commits
 HandleFree(a) == rlock[Handle[a]] \in {"none", a}
 
@@ -192,7 +199,7 @@ EmptyLoc == [files |-> <<>>, marks |-> {}, base |-> <<>>, baseName |-> NoName, s
              todo |-> <<>>, finalMans |-> <<>>, newFiles |-> {}, list |-> 0, draft |-> <<>>, ts |-> 0,
              valName |-> NoName, prevName |-> NoName, nextVer |-> 0, etagName |-> NoName, target |-> 0,
              err |-> "none", after |-> "none", pend |-> 0, chk |-> 0, from |-> 0, body |-> <<>>, got |-> {}, rfiles |-> {},
-             reach |-> {}, prot |-> {}, cand |-> {}, cutoff |-> 0, mseen |-> {}, esc |-> FALSE]
+             reach |-> {}, prot |-> {}, cand |-> {}, cutoff |-> 0, mseen |-> {}, esc |-> FALSE, etagRead |-> FALSE]
 
 InitBody(k) ==
   [uuid |-> UUID0, cur |-> IF k = 0 THEN 0 ELSE 900 + k, lastUpd |-> k, lastSeq |-> k,
@@ -237,6 +244,7 @@ Init ==
   /\ deleted = {}
   /\ initBody = (IF InitTable = "absent" THEN NoBody ELSE InitBody(InitSnaps))
   /\ joined = {}
+  /\ scanning = {}
 
 (***************************************************************************)
 (* Clock.  Now(a) is the value a clock read returns; ClockAfterRead the     *)
@@ -252,7 +260,7 @@ Tick ==
   /\ ClockMode = "coarse"
   /\ clock < MaxClock
   /\ clock' = clock + 1
-  /\ UNCHANGED <<storageVars, lockHolder, rlock, actorVars, faults, lease, ghostVars>>
+  /\ UNCHANGED <<storageVars, lockHolder, rlock, actorVars, faults, lease, ghostVars, scanning>>
 
 (***************************************************************************)
 (* The pointer file is damaged from outside (C10): lost, overwritten with   *)
@@ -265,11 +273,11 @@ DamageHint(cls, name) ==
   /\ cls \in {"missing", "garbage", "name"}
   /\ cls # "name" => name = NoName
   /\ hint' = [cls |-> cls, name |-> name]
-  /\ UNCHANGED <<metas, metaTime, lists, mans, present, ftime, markers, mtimeM, clock, lockHolder, rlock, actorVars, faults, lease, ghostVars>>
+  /\ UNCHANGED <<metas, metaTime, lists, mans, present, ftime, markers, mtimeM, clock, lockHolder, rlock, actorVars, faults, lease, ghostVars, scanning>>
 
 DamageHintB(cls, name) ==
   /\ hint' = [cls |-> cls, name |-> name]
-  /\ UNCHANGED <<metas, metaTime, lists, mans, present, ftime, markers, mtimeM, clock, lockHolder, rlock, actorVars, lease, ghostVars>>
+  /\ UNCHANGED <<metas, metaTime, lists, mans, present, ftime, markers, mtimeM, clock, lockHolder, rlock, actorVars, lease, ghostVars, scanning>>
 
 (***************************************************************************)
 (* Committer.                                                              *)
@@ -293,7 +301,7 @@ Begin(a) ==
   /\ loc' = [loc EXCEPT ![a] = EmptyLoc]
   /\ att' = [att EXCEPT ![a] = 0]
   /\ pc' = [pc EXCEPT ![a] = IF OpKind(a) = "delsnap" THEN "ds_resolve" ELSE IF OpKind(a) = "create" THEN "k_open" ELSE "tx_check"]
-  /\ UNCHANGED <<storageVars, clock, lockHolder, rlock, opi, faults, lease, ghostVars>>
+  /\ UNCHANGED <<storageVars, clock, lockHolder, rlock, opi, faults, lease, ghostVars, scanning>>
 
 NextAppend(a) == AppendFiles(a)[Len(loc[a].files) + 1]
 
@@ -313,7 +321,7 @@ QueuePrebuilt(a, f) ==
           /\ UNCHANGED pc
      ELSE /\ loc' = [loc EXCEPT ![a].err = "error"]
           /\ pc' = [pc EXCEPT ![a] = IF Style(a) = "ctx" THEN "rollback" ELSE "raise_keep"]
-  /\ UNCHANGED <<storageVars, clock, lockHolder, rlock, opi, att, faults, lease, ghostVars>>
+  /\ UNCHANGED <<storageVars, clock, lockHolder, rlock, opi, att, faults, lease, ghostVars, scanning>>
 
 WriteMarkerD(a, f) ==
   /\ pc[a] = "tx_check"
@@ -324,7 +332,7 @@ WriteMarkerD(a, f) ==
   /\ mtimeM' = (f :> clock) @@ mtimeM
   /\ loc' = [loc EXCEPT ![a].marks = @ \cup {f}]
   /\ pc' = [pc EXCEPT ![a] = "tx_data"]
-  /\ UNCHANGED <<hint, metas, metaTime, lists, mans, present, ftime, clock, lockHolder, rlock, opi, att, faults, lease, ghostVars>>
+  /\ UNCHANGED <<hint, metas, metaTime, lists, mans, present, ftime, clock, lockHolder, rlock, opi, att, faults, lease, ghostVars, scanning>>
 
 WriteData(a, f, t) ==
   /\ pc[a] = "tx_data"
@@ -334,14 +342,14 @@ WriteData(a, f, t) ==
   /\ ftime' = (f :> t) @@ ftime
   /\ loc' = [loc EXCEPT ![a].files = Append(@, f)]
   /\ pc' = [pc EXCEPT ![a] = "tx_check"]
-  /\ UNCHANGED <<hint, metas, metaTime, lists, mans, markers, mtimeM, clock, lockHolder, rlock, opi, att, faults, lease, ghostVars>>
+  /\ UNCHANGED <<hint, metas, metaTime, lists, mans, markers, mtimeM, clock, lockHolder, rlock, opi, att, faults, lease, ghostVars, scanning>>
 
 \* Transaction.commit() is entered: from here on commit()'s own exception handlers apply
 CommitStart(a) ==
   /\ pc[a] = "tx_check"
   /\ Len(loc[a].files) = Len(AppendFiles(a))
   /\ pc' = [pc EXCEPT ![a] = "c_base"]
-  /\ UNCHANGED <<storageVars, clock, lockHolder, rlock, opi, att, loc, faults, lease, ghostVars>>
+  /\ UNCHANGED <<storageVars, clock, lockHolder, rlock, opi, att, loc, faults, lease, ghostVars, scanning>>
 
 \* no appended files => nothing to validate (no storage call happens): straight to the list
 AfterBase(a) == IF Len(AppendFiles(a)) = 0 THEN "c_wlist_mark" ELSE "c_checkdata"
@@ -350,12 +358,13 @@ AfterBase(a) == IF Len(AppendFiles(a)) = 0 THEN "c_wlist_mark" ELSE "c_checkdata
 ReadBase(a, name) ==
   /\ pc[a] = "c_base"
   /\ HandleFree(a)
-  /\ CanResolve(name)
+  /\ Resolves(a, name)
+  /\ scanning' = scanning \ {a}
   /\ name # NoName
   /\ LET b == metas[name]
          dangling == IsFileOp(a) /\ b.cur # 0 /\ ~HasSnap(b, b.cur)    \* transaction.py:482-493: abort
      IN
-     /\ loc' = [loc EXCEPT ![a].base = b, ![a].baseName = name,
+     /\ loc' = [loc EXCEPT ![a].base = b, ![a].baseName = name, ![a].etagRead = FALSE,
                            ![a].finalMans = <<>>, ![a].newFiles = {}, ![a].list = 0, ![a].chk = 0, ![a].pend = 0,
                            ![a].todo = IF b.cur = 0 \/ ~HasSnap(b, b.cur) THEN <<>> ELSE lists[SnapOf(b, b.cur).list],
                            ![a].seq = b.lastSeq + 1,
@@ -376,7 +385,7 @@ ReadBaseList(a) ==
           /\ loc' = [loc EXCEPT ![a].finalMans = IF DeleteFiles(a) # {} THEN <<>> ELSE loc[a].todo]
      ELSE /\ pc' = [pc EXCEPT ![a] = "rollback"]
           /\ loc' = [loc EXCEPT ![a].err = "error"]
-  /\ UNCHANGED <<storageVars, clock, lockHolder, rlock, opi, att, faults, lease, ghostVars>>
+  /\ UNCHANGED <<storageVars, clock, lockHolder, rlock, opi, att, faults, lease, ghostVars, scanning>>
 
 \* deletes: read each base manifest; keep / rewrite / drop (transaction.py:507-545)
 \* after a base manifest has been handled: next one, or on to the data check
@@ -398,7 +407,7 @@ ReadManifest(a) ==
              /\ pc' = [pc EXCEPT ![a] = AfterMan(a, Len(loc[a].todo))]
         ELSE /\ pc' = [pc EXCEPT ![a] = "c_rew_mark"]   \* partial: rewrite
              /\ UNCHANGED loc
-  /\ UNCHANGED <<storageVars, clock, lockHolder, rlock, opi, att, faults, lease, ghostVars>>
+  /\ UNCHANGED <<storageVars, clock, lockHolder, rlock, opi, att, faults, lease, ghostVars, scanning>>
 
 \* marker for a file of the commit in progress (manifest, rewritten manifest or list)
 WriteMarkerM(a, f) ==
@@ -408,7 +417,7 @@ WriteMarkerM(a, f) ==
   /\ mtimeM' = (f :> clock) @@ mtimeM
   /\ loc' = [loc EXCEPT ![a].marks = @ \cup {f}, ![a].pend = f]
   /\ pc' = [pc EXCEPT ![a] = CASE pc[a] = "c_rew_mark" -> "c_rew" [] pc[a] = "c_wman_mark" -> "c_wman" [] OTHER -> "c_wlist"]
-  /\ UNCHANGED <<hint, metas, metaTime, lists, mans, present, ftime, clock, lockHolder, rlock, opi, att, faults, lease, ghostVars>>
+  /\ UNCHANGED <<hint, metas, metaTime, lists, mans, present, ftime, clock, lockHolder, rlock, opi, att, faults, lease, ghostVars, scanning>>
 
 \* the rewritten manifest: survivors as EXISTING with their original snapshot id / sequence number
 RewriteManifest(a, newMan, t) ==
@@ -422,7 +431,7 @@ RewriteManifest(a, newMan, t) ==
         /\ ftime' = (newMan :> t) @@ ftime
         /\ loc' = [loc EXCEPT ![a].todo = Tail(@), ![a].finalMans = Append(@, newMan), ![a].newFiles = @ \cup {newMan}]
         /\ pc' = [pc EXCEPT ![a] = AfterMan(a, Len(loc[a].todo))]
-  /\ UNCHANGED <<hint, metas, metaTime, lists, markers, mtimeM, clock, lockHolder, rlock, opi, att, faults, lease, ghostVars>>
+  /\ UNCHANGED <<hint, metas, metaTime, lists, markers, mtimeM, clock, lockHolder, rlock, opi, att, faults, lease, ghostVars, scanning>>
 
 \* validate_data_files: every appended file must exist (transaction.py:551)
 CheckData(a) ==
@@ -433,7 +442,7 @@ CheckData(a) ==
           /\ pc' = [pc EXCEPT ![a] = IF loc[a].chk + 1 >= Len(AppendFiles(a)) THEN "c_wman_mark" ELSE "c_checkdata"]
      ELSE /\ pc' = [pc EXCEPT ![a] = "rollback"]
           /\ loc' = [loc EXCEPT ![a].err = "error"]
-  /\ UNCHANGED <<storageVars, clock, lockHolder, rlock, opi, att, faults, lease, ghostVars>>
+  /\ UNCHANGED <<storageVars, clock, lockHolder, rlock, opi, att, faults, lease, ghostVars, scanning>>
 
 \* marker + manifest for the appended files (ADDED, this attempt's snapshot id and sequence number)
 WriteManifest(a, newMan, sid, t) ==
@@ -446,7 +455,7 @@ WriteManifest(a, newMan, sid, t) ==
   /\ ftime' = (newMan :> t) @@ ftime
   /\ loc' = [loc EXCEPT ![a].finalMans = Append(@, newMan), ![a].newFiles = @ \cup {newMan}, ![a].sid = sid]
   /\ pc' = [pc EXCEPT ![a] = "c_wlist_mark"]
-  /\ UNCHANGED <<hint, metas, metaTime, lists, markers, mtimeM, clock, lockHolder, rlock, opi, att, faults, lease, ghostVars>>
+  /\ UNCHANGED <<hint, metas, metaTime, lists, markers, mtimeM, clock, lockHolder, rlock, opi, att, faults, lease, ghostVars, scanning>>
 
 WriteList(a, newList, sid, t) ==
   /\ pc[a] = "c_wlist"
@@ -458,7 +467,7 @@ WriteList(a, newList, sid, t) ==
   /\ ftime' = (newList :> t) @@ ftime
   /\ loc' = [loc EXCEPT ![a].list = newList, ![a].newFiles = @ \cup {newList}, ![a].sid = sid]
   /\ pc' = [pc EXCEPT ![a] = "c_stamp"]
-  /\ UNCHANGED <<hint, metas, metaTime, mans, markers, mtimeM, clock, lockHolder, rlock, opi, att, faults, lease, ghostVars>>
+  /\ UNCHANGED <<hint, metas, metaTime, mans, markers, mtimeM, clock, lockHolder, rlock, opi, att, faults, lease, ghostVars, scanning>>
 
 \* create_snapshot: timestamp read + the new metadata value (snapshot_manager.py:111-148)
 StampSnapshot(a, ts) ==
@@ -468,7 +477,7 @@ StampSnapshot(a, ts) ==
   /\ loc' = [loc EXCEPT ![a].ts = ts,
                         ![a].draft = NewSnapshot(loc[a].base, loc[a].sid, loc[a].seq, ts, loc[a].list, Cutoff(a))]
   /\ pc' = [pc EXCEPT ![a] = "c_tlock"]
-  /\ UNCHANGED <<storageVars, lockHolder, rlock, opi, att, faults, lease, ghostVars>>
+  /\ UNCHANGED <<storageVars, lockHolder, rlock, opi, att, faults, lease, ghostVars, scanning>>
 
 \* ---- MetadataManager.commit ----
 TLock(a) ==
@@ -479,7 +488,7 @@ TLock(a) ==
         IF IsFileOp(a) \/ OpKind(a) = "delsnap" THEN loc[a].draft
         ELSE IF Cutoff(a) = NoCutoff THEN loc[a].base ELSE Expire(loc[a].base, Cutoff(a))]
   /\ pc' = [pc EXCEPT ![a] = "c_dlock"]
-  /\ UNCHANGED <<storageVars, clock, lockHolder, opi, att, faults, lease, ghostVars>>
+  /\ UNCHANGED <<storageVars, clock, lockHolder, opi, att, faults, lease, ghostVars, scanning>>
 
 PreFencePcs == {"c_validate", "c_stampupd", "c_readver", "c_wmeta", "c_fence"}
 
@@ -494,7 +503,7 @@ DLock(a) ==
                      lost |-> (lease.lost \ {a}) \cup (IF lockHolder \notin {"none", a} /\ pc[lockHolder] \in PreFencePcs
                                                        THEN {lockHolder} ELSE {})]
   /\ pc' = [pc EXCEPT ![a] = "c_validate"]
-  /\ UNCHANGED <<storageVars, clock, rlock, opi, att, loc, faults, ghostVars>>
+  /\ UNCHANGED <<storageVars, clock, rlock, opi, att, loc, faults, ghostVars, scanning>>
 
 \* the holder's heartbeat thread renews the lease (lock_provider.py:309-335)
 Heartbeat(a) ==
@@ -502,13 +511,14 @@ Heartbeat(a) ==
   /\ lockHolder = a
   /\ lease.t # clock                       \* (a renewal within the same tick changes nothing)
   /\ lease' = [lease EXCEPT !.t = clock]
-  /\ UNCHANGED <<storageVars, clock, lockHolder, rlock, actorVars, faults, ghostVars>>
+  /\ UNCHANGED <<storageVars, clock, lockHolder, rlock, actorVars, faults, ghostVars, scanning>>
 
 \* the OCC check (metadata_manager.py:161-180): uuid, current snapshot id, last_updated_ms
 Validate(a, name) ==
   /\ pc[a] = "c_validate"
   /\ HandleFree(a)
-  /\ CanResolve(name)
+  /\ Resolves(a, name)
+  /\ scanning' = scanning \ {a}
   /\ LET cur == IF name = NoName THEN <<>> ELSE metas[name]
          b == loc[a].base
          ok == name = NoName \/ (cur.uuid = b.uuid /\ cur.cur = b.cur /\ cur.lastUpd = b.lastUpd)
@@ -523,17 +533,42 @@ StampUpdate(a, t) ==
   /\ clock' = t
   /\ loc' = [loc EXCEPT ![a].draft.lastUpd = IF FixStamp THEN MaxI(t, loc[a].base.lastUpd + 1) ELSE t]
   /\ pc' = [pc EXCEPT ![a] = "c_readver"]
-  /\ UNCHANGED <<storageVars, lockHolder, rlock, opi, att, faults, lease, ghostVars>>
+  /\ UNCHANGED <<storageVars, lockHolder, rlock, opi, att, faults, lease, ghostVars, scanning>>
+
+\* first half of a pointer resolution that finds the pointer unusable (missing, unparseable, naming a missing file)
+ResolvePcs == {"c_base", "c_validate", "c_readver", "ds_resolve", "k_open", "k_check"}
+AtResolvePoint(a) == \/ pc[a] \in ResolvePcs
+                     \/ (Role[a] = "reader" /\ pc[a] = "idle" /\ opi[a] <= Len(Prog[a]))
+                     \/ (Role[a] = "collector" /\ pc[a] = (IF FixGCOrder THEN "g_begin" ELSE "idle") /\ opi[a] <= Len(Prog[a]))
+SeeHintUnusable(a) ==
+  /\ a \notin scanning
+  /\ HintedName = NoName
+  /\ Backend = "s3cas" /\ pc[a] = "c_readver" => loc[a].etagRead      \* (CAS: the ETag read comes first)
+  /\ scanning' = scanning \cup {a}
+  /\ UNCHANGED <<storageVars, clock, lockHolder, rlock, actorVars, faults, lease, ghostVars>>
+
+\* CAS backends, metadata_manager.py:203: the pointer is read together with its ETag.  When it does not name an existing
+\* version, the ETag read is all this step yields (the conditional write will be keyed to it: "absent" for a missing
+\* pointer) and the version is looked up separately, later - by which time the pointer may have changed.
+ReadEtag(a) ==
+  /\ pc[a] = "c_readver"
+  /\ Backend = "s3cas"
+  /\ ~loc[a].etagRead
+  /\ HintedName = NoName
+  /\ loc' = [loc EXCEPT ![a].etagRead = TRUE, ![a].etagName = (IF hint.cls = "name" THEN hint.name ELSE NoName)]
+  /\ UNCHANGED <<storageVars, clock, lockHolder, rlock, pc, opi, att, faults, lease, ghostVars, scanning>>
 
 \* second read of the pointer: version number (+ ETag on CAS backends) (metadata_manager.py:187-204)
 ReadVersion(a, name) ==
   /\ pc[a] = "c_readver"
   \* CAS backends read the pointer (with its ETag) themselves; a pointer naming a file that does not exist is not a
   \* version: neither its name nor its NUMBER is used, the version comes from the scan like everywhere else
-  /\ IF Backend = "s3cas" /\ HintedName # NoName THEN name = HintedName ELSE CanResolve(name)
-  /\ LET stale == FixEtag /\ Backend = "s3cas" /\ HintedName # NoName /\ name # loc[a].valName IN
+  /\ Backend = "s3cas" /\ ~loc[a].etagRead => HintedName # NoName      \* (otherwise ReadEtag comes first)
+  /\ IF Backend = "s3cas" /\ ~loc[a].etagRead THEN name = HintedName ELSE Resolves(a, name)
+  /\ scanning' = scanning \ {a}
+  /\ LET stale == FixEtag /\ Backend = "s3cas" /\ ~loc[a].etagRead /\ name # loc[a].valName IN
      /\ loc' = [loc EXCEPT ![a].prevName = name, ![a].nextVer = (IF name = NoName THEN 1 ELSE name.v + 1),
-                           ![a].etagName = (IF hint.cls = "name" THEN hint.name ELSE NoName),
+                           ![a].etagName = (IF loc[a].etagRead THEN loc[a].etagName ELSE IF hint.cls = "name" THEN hint.name ELSE NoName),
                            ![a].draft = AppendMlog(loc[a].draft, name),
                            ![a].after = IF stale THEN "cme" ELSE "none"]
      /\ pc' = [pc EXCEPT ![a] = IF stale THEN "c_unlock" ELSE "c_wmeta"]
@@ -547,7 +582,7 @@ WriteMeta(a, name) ==
   /\ metaTime' = (name :> clock) @@ metaTime
   /\ loc' = [loc EXCEPT ![a].target = name.u, ![a].nextVer = name.v]
   /\ pc' = [pc EXCEPT ![a] = "c_fence"]
-  /\ UNCHANGED <<hint, lists, mans, present, ftime, markers, mtimeM, clock, lockHolder, rlock, opi, att, faults, lease, ghostVars>>
+  /\ UNCHANGED <<hint, lists, mans, present, ftime, markers, mtimeM, clock, lockHolder, rlock, opi, att, faults, lease, ghostVars, scanning>>
 
 MyMetaName(a) == [v |-> loc[a].nextVer, u |-> loc[a].target]
 
@@ -567,7 +602,7 @@ AfterMetaWriteFail(a) ==
   /\ pc' = [pc EXCEPT ![a] = IF FixMetaInTry THEN AfterCleanFail ELSE "c_unlock"]
   /\ loc' = [loc EXCEPT ![a].err = "error",
                         ![a].after = IF OpKind(a) # "delsnap" THEN "rollback" ELSE "raise_keep"]
-  /\ UNCHANGED <<storageVars, clock, lockHolder, rlock, opi, att, lease, ghostVars>>
+  /\ UNCHANGED <<storageVars, clock, lockHolder, rlock, opi, att, lease, ghostVars, scanning>>
 
 DiscardMeta(a) ==
   /\ pc[a] = "c_discard"
@@ -575,13 +610,13 @@ DiscardMeta(a) ==
      /\ metas' = [n \in DOMAIN metas \ {me} |-> metas[n]]
      /\ metaTime' = [n \in DOMAIN metaTime \ {me} |-> metaTime[n]]
   /\ pc' = [pc EXCEPT ![a] = "c_unlock"]
-  /\ UNCHANGED <<hint, lists, mans, present, ftime, markers, mtimeM, clock, lockHolder, rlock, opi, att, loc, faults, lease, ghostVars>>
+  /\ UNCHANGED <<hint, lists, mans, present, ftime, markers, mtimeM, clock, lockHolder, rlock, opi, att, loc, faults, lease, ghostVars, scanning>>
 
 \* (the removal is best effort: a failure to remove it is swallowed)
 DiscardMetaFails(a) ==
   /\ pc[a] = "c_discard"
   /\ pc' = [pc EXCEPT ![a] = "c_unlock"]
-  /\ UNCHANGED <<storageVars, clock, lockHolder, rlock, opi, att, loc, faults, lease, ghostVars>>
+  /\ UNCHANGED <<storageVars, clock, lockHolder, rlock, opi, att, loc, faults, lease, ghostVars, scanning>>
 
 \* fencing: is_held() (metadata_manager.py:224)
 Fence(a) ==
@@ -589,7 +624,7 @@ Fence(a) ==
   /\ LET held == LockKind = "none" \/ lockHolder = a IN
      /\ pc' = [pc EXCEPT ![a] = IF held THEN "c_flip" ELSE AfterCleanFail]
      /\ loc' = [loc EXCEPT ![a].after = IF held THEN "none" ELSE "cme"]
-  /\ UNCHANGED <<storageVars, clock, lockHolder, rlock, opi, att, faults, lease, ghostVars>>
+  /\ UNCHANGED <<storageVars, clock, lockHolder, rlock, opi, att, faults, lease, ghostVars, scanning>>
 
 \* ---- reference semantics of an acknowledged operation, applied to the reference state ----
 SerialApply(s, a, sid) ==
@@ -628,7 +663,7 @@ FlipHint(a) ==
         ELSE /\ pc' = [pc EXCEPT ![a] = AfterCleanFail]
              /\ loc' = [loc EXCEPT ![a].after = "cme"]
              /\ UNCHANGED <<hint, commitLog, serial, tsOf, sidOfOp>>
-  /\ UNCHANGED <<metas, metaTime, lists, mans, present, ftime, markers, mtimeM, clock, lockHolder, rlock, opi, att, faults, lease, outcomes, reads, deleted, initBody, joined>>
+  /\ UNCHANGED <<metas, metaTime, lists, mans, present, ftime, markers, mtimeM, clock, lockHolder, rlock, opi, att, faults, lease, outcomes, reads, deleted, initBody, joined, scanning>>
 
 \* release of the distributed lock, then of the handle's thread lock; where control goes afterwards
 \* was decided by whoever entered the unlock path (loc.after)
@@ -639,7 +674,7 @@ DUnlock(a) ==
   /\ \/ lockHolder' = (IF lockHolder = a THEN "none" ELSE lockHolder)
      \/ LockKind = "lease" /\ lockHolder \notin {a, "none"} /\ lockHolder' = "none"
   /\ pc' = [pc EXCEPT ![a] = "c_tunlock"]
-  /\ UNCHANGED <<storageVars, clock, rlock, opi, att, loc, faults, lease, ghostVars>>
+  /\ UNCHANGED <<storageVars, clock, rlock, opi, att, loc, faults, lease, ghostVars, scanning>>
 
 AfterCme(a) == IF OpKind(a) = "delsnap" THEN "raise_keep"
                ELSE IF att[a] >= MaxAttempts THEN "rollback" ELSE "c_backoff"
@@ -649,20 +684,20 @@ TUnlock(a) ==
   /\ rlock' = [rlock EXCEPT ![Handle[a]] = "none"]
   /\ pc' = [pc EXCEPT ![a] = IF loc[a].after = "cme" THEN AfterCme(a) ELSE loc[a].after]
   /\ loc' = [loc EXCEPT ![a].err = IF loc[a].after = "cme" THEN "cme" ELSE loc[a].err]
-  /\ UNCHANGED <<storageVars, clock, lockHolder, opi, att, faults, lease, ghostVars>>
+  /\ UNCHANGED <<storageVars, clock, lockHolder, opi, att, faults, lease, ghostVars, scanning>>
 
 \* time.sleep(backoff), then a new attempt from ReadBase with fresh ids
 Backoff(a) ==
   /\ pc[a] = "c_backoff"
   /\ pc' = [pc EXCEPT ![a] = "c_base"]
   /\ loc' = [loc EXCEPT ![a].sid = 0]
-  /\ UNCHANGED <<storageVars, clock, lockHolder, rlock, opi, att, faults, lease, ghostVars>>
+  /\ UNCHANGED <<storageVars, clock, lockHolder, rlock, opi, att, faults, lease, ghostVars, scanning>>
 
 \* _finish_committed() is entered: the transaction is marked committed (transaction.py:607-608)
 Finish(a) ==
   /\ pc[a] = "c_finish"
   /\ pc' = [pc EXCEPT ![a] = "c_cleanup"]
-  /\ UNCHANGED <<storageVars, clock, lockHolder, rlock, opi, att, loc, faults, lease, ghostVars>>
+  /\ UNCHANGED <<storageVars, clock, lockHolder, rlock, opi, att, loc, faults, lease, ghostVars, scanning>>
 
 \* _finish_committed: best-effort marker removal, then return True
 DeleteMarker(a, f) ==
@@ -670,7 +705,7 @@ DeleteMarker(a, f) ==
   /\ f \in loc[a].marks
   /\ markers' = markers \ {f}
   /\ loc' = [loc EXCEPT ![a].marks = @ \ {f}]
-  /\ UNCHANGED <<hint, metas, metaTime, lists, mans, present, ftime, mtimeM, clock, lockHolder, rlock, pc, opi, att, faults, lease, ghostVars>>
+  /\ UNCHANGED <<hint, metas, metaTime, lists, mans, present, ftime, mtimeM, clock, lockHolder, rlock, pc, opi, att, faults, lease, ghostVars, scanning>>
 
 ReturnOk(a) ==
   /\ pc[a] = "c_cleanup"
@@ -678,7 +713,7 @@ ReturnOk(a) ==
   /\ outcomes' = [outcomes EXCEPT ![a] = Append(@, "ok")]
   /\ pc' = [pc EXCEPT ![a] = "idle"]
   /\ opi' = [opi EXCEPT ![a] = @ + 1]
-  /\ UNCHANGED <<storageVars, clock, lockHolder, rlock, att, loc, faults, lease, commitLog, serial, tsOf, sidOfOp, reads, deleted, initBody, joined>>
+  /\ UNCHANGED <<storageVars, clock, lockHolder, rlock, att, loc, faults, lease, commitLog, serial, tsOf, sidOfOp, reads, deleted, initBody, joined, scanning>>
 
 \* _rollback(): delete the DATA files this transaction wrote, then its markers (transaction.py:648-663)
 RollbackDeleteData(a, f) ==
@@ -687,7 +722,7 @@ RollbackDeleteData(a, f) ==
   /\ present' = present \ {f}
   /\ deleted' = deleted \cup {[f |-> f, by |-> a, i |-> opi[a], at |-> Len(commitLog)]}
   /\ loc' = [loc EXCEPT ![a].files = SelectSeq(@, LAMBDA x : x # f)]
-  /\ UNCHANGED <<hint, metas, metaTime, lists, mans, ftime, markers, mtimeM, clock, lockHolder, rlock, pc, opi, att, faults, lease, commitLog, serial, tsOf, sidOfOp, outcomes, reads, initBody, joined>>
+  /\ UNCHANGED <<hint, metas, metaTime, lists, mans, ftime, markers, mtimeM, clock, lockHolder, rlock, pc, opi, att, faults, lease, commitLog, serial, tsOf, sidOfOp, outcomes, reads, initBody, joined, scanning>>
 
 RollbackDeleteMarker(a, f) ==
   /\ pc[a] = "rollback"
@@ -695,7 +730,7 @@ RollbackDeleteMarker(a, f) ==
   /\ f \in loc[a].marks
   /\ markers' = markers \ {f}
   /\ loc' = [loc EXCEPT ![a].marks = @ \ {f}]
-  /\ UNCHANGED <<hint, metas, metaTime, lists, mans, present, ftime, mtimeM, clock, lockHolder, rlock, pc, opi, att, faults, lease, ghostVars>>
+  /\ UNCHANGED <<hint, metas, metaTime, lists, mans, present, ftime, mtimeM, clock, lockHolder, rlock, pc, opi, att, faults, lease, ghostVars, scanning>>
 
 \* Trace validation only: rollback is best effort - leaving written files or markers behind is
 \* untidy but safe (they are unreachable orphans), so a return from an unfinished rollback is accepted.
@@ -704,7 +739,7 @@ ReturnErrLeaving(a) ==
   /\ outcomes' = [outcomes EXCEPT ![a] = Append(@, loc[a].err)]
   /\ pc' = [pc EXCEPT ![a] = "idle"]
   /\ opi' = [opi EXCEPT ![a] = @ + 1]
-  /\ UNCHANGED <<storageVars, clock, lockHolder, rlock, att, loc, faults, lease, commitLog, serial, tsOf, sidOfOp, reads, deleted, initBody, joined>>
+  /\ UNCHANGED <<storageVars, clock, lockHolder, rlock, att, loc, faults, lease, commitLog, serial, tsOf, sidOfOp, reads, deleted, initBody, joined, scanning>>
 
 ReturnErr(a) ==
   /\ \/ pc[a] = "rollback" /\ loc[a].files = <<>> /\ loc[a].marks = {}
@@ -712,7 +747,7 @@ ReturnErr(a) ==
   /\ outcomes' = [outcomes EXCEPT ![a] = Append(@, loc[a].err)]
   /\ pc' = [pc EXCEPT ![a] = "idle"]
   /\ opi' = [opi EXCEPT ![a] = @ + 1]
-  /\ UNCHANGED <<storageVars, clock, lockHolder, rlock, att, loc, faults, lease, commitLog, serial, tsOf, sidOfOp, reads, deleted, initBody, joined>>
+  /\ UNCHANGED <<storageVars, clock, lockHolder, rlock, att, loc, faults, lease, commitLog, serial, tsOf, sidOfOp, reads, deleted, initBody, joined, scanning>>
 
 (***************************************************************************)
 (* Faults (C04).  Fault(a, kind) makes the storage call (or, for "async",    *)
@@ -794,7 +829,7 @@ Fault(a, kind) ==
         /\ pc' = [pc EXCEPT ![a] = IF RollsBack(a, kind, TRUE) THEN "rollback" ELSE "raise_keep"]
         /\ loc' = [loc EXCEPT ![a].err = "interrupted"]
         /\ UNCHANGED <<hint, commitLog, serial, tsOf, sidOfOp>>
-  /\ UNCHANGED <<metas, metaTime, lists, mans, present, ftime, markers, mtimeM, clock, lockHolder, rlock, opi, att, lease, outcomes, reads, deleted, initBody, joined>>
+  /\ UNCHANGED <<metas, metaTime, lists, mans, present, ftime, markers, mtimeM, clock, lockHolder, rlock, opi, att, lease, outcomes, reads, deleted, initBody, joined, scanning>>
 
 \* second half of Fault(a, "after") at the pointer write, for executions that log the landed request and the error
 \* the client saw as two events:  FlipHint(a) \cdot AmbiguousAfterFlip(a)  =  Fault(a, "after") at c_flip
@@ -806,7 +841,7 @@ AmbiguousAfterFlip(a) ==
   /\ faults > 0
   /\ faults' = faults - 1
   /\ loc' = [loc EXCEPT ![a].err = "ambiguous", ![a].after = "raise_keep"]
-  /\ UNCHANGED <<storageVars, clock, lockHolder, rlock, pc, opi, att, lease, ghostVars>>
+  /\ UNCHANGED <<storageVars, clock, lockHolder, rlock, pc, opi, att, lease, ghostVars, scanning>>
 
 \* CAS backends: the existence probe of the hinted file (part of the version lookup, before the metadata write and
 \* outside its handler) fails: straight to the unlock path.  In the model this differs from Fault at c_wmeta only
@@ -818,7 +853,7 @@ FaultInVersionProbe(a) ==
   /\ faults' = faults - 1
   /\ pc' = [pc EXCEPT ![a] = "c_unlock"]
   /\ loc' = [loc EXCEPT ![a].err = "error", ![a].after = IF OpKind(a) # "delsnap" THEN "rollback" ELSE "raise_keep"]
-  /\ UNCHANGED <<storageVars, clock, lockHolder, rlock, opi, att, lease, ghostVars>>
+  /\ UNCHANGED <<storageVars, clock, lockHolder, rlock, opi, att, lease, ghostVars, scanning>>
 
 \* the committing process dies (kill -9): nothing of its further program happens; a flock is released by the kernel
 Crash(a) ==
@@ -829,7 +864,7 @@ Crash(a) ==
   /\ pc' = [pc EXCEPT ![a] = "dead"]
   /\ lockHolder' = IF lockHolder = a /\ Backend = "local" THEN "none" ELSE lockHolder
   /\ rlock' = [rlock EXCEPT ![Handle[a]] = IF @ = a THEN "none" ELSE @]
-  /\ UNCHANGED <<storageVars, clock, opi, att, loc, lease, ghostVars>>
+  /\ UNCHANGED <<storageVars, clock, opi, att, loc, lease, ghostVars, scanning>>
 
 \* best-effort steps whose failure is swallowed: a marker that could not be removed stays
 SkipMarker(a, f) ==
@@ -839,7 +874,7 @@ SkipMarker(a, f) ==
   /\ faults > 0
   /\ faults' = faults - 1
   /\ loc' = [loc EXCEPT ![a].marks = @ \ {f}]
-  /\ UNCHANGED <<storageVars, clock, lockHolder, rlock, pc, opi, att, lease, ghostVars>>
+  /\ UNCHANGED <<storageVars, clock, lockHolder, rlock, pc, opi, att, lease, ghostVars, scanning>>
 
 \* rollback could not delete a data file (swallowed): it stays as an orphan
 SkipRollbackData(a, f) ==
@@ -848,7 +883,7 @@ SkipRollbackData(a, f) ==
   /\ faults > 0
   /\ faults' = faults - 1
   /\ loc' = [loc EXCEPT ![a].files = SelectSeq(@, LAMBDA x : x # f)]
-  /\ UNCHANGED <<storageVars, clock, lockHolder, rlock, pc, opi, att, lease, ghostVars>>
+  /\ UNCHANGED <<storageVars, clock, lockHolder, rlock, pc, opi, att, lease, ghostVars, scanning>>
 
 (***************************************************************************)
 (* Table creation / opening (transaction.py:733-783 Table.__init__,         *)
@@ -861,7 +896,8 @@ SkipRollbackData(a, f) ==
 KOpen(a, name) ==
   /\ pc[a] = "k_open"
   /\ HandleFree(a)
-  /\ CanResolve(name)
+  /\ Resolves(a, name)
+  /\ scanning' = scanning \ {a}
   /\ pc' = [pc EXCEPT ![a] = IF name = NoName THEN "k_tlock" ELSE "k_done"]
   /\ UNCHANGED <<storageVars, clock, lockHolder, rlock, opi, att, loc, faults, lease, ghostVars>>
 
@@ -870,19 +906,20 @@ KTLock(a) ==
   /\ rlock[Handle[a]] = "none"
   /\ rlock' = [rlock EXCEPT ![Handle[a]] = a]
   /\ pc' = [pc EXCEPT ![a] = "k_dlock"]
-  /\ UNCHANGED <<storageVars, clock, lockHolder, opi, att, loc, faults, lease, ghostVars>>
+  /\ UNCHANGED <<storageVars, clock, lockHolder, opi, att, loc, faults, lease, ghostVars, scanning>>
 
 KDLock(a) ==
   /\ pc[a] = "k_dlock"
   /\ \/ LockKind = "none" /\ UNCHANGED <<lockHolder, lease>>
      \/ LockKind # "none" /\ lockHolder = "none" /\ lockHolder' = a /\ lease' = [lease EXCEPT !.t = clock]
   /\ pc' = [pc EXCEPT ![a] = "k_check"]
-  /\ UNCHANGED <<storageVars, clock, rlock, opi, att, loc, faults, ghostVars>>
+  /\ UNCHANGED <<storageVars, clock, rlock, opi, att, loc, faults, ghostVars, scanning>>
 
 \* _current_version_info() under the lock: any recoverable version means the table exists
 KCheck(a, name) ==
   /\ pc[a] = "k_check"
-  /\ CanResolve(name)
+  /\ Resolves(a, name)
+  /\ scanning' = scanning \ {a}
   /\ pc' = [pc EXCEPT ![a] = IF name = NoName THEN "k_stamp" ELSE "k_unlock"]
   /\ UNCHANGED <<storageVars, clock, lockHolder, rlock, opi, att, loc, faults, lease, ghostVars>>
 
@@ -892,7 +929,7 @@ KStamp(a, t) ==
   /\ clock' = t
   /\ loc' = [loc EXCEPT ![a].ts = t]
   /\ pc' = [pc EXCEPT ![a] = "k_wmeta"]
-  /\ UNCHANGED <<storageVars, lockHolder, rlock, opi, att, faults, lease, ghostVars>>
+  /\ UNCHANGED <<storageVars, lockHolder, rlock, opi, att, faults, lease, ghostVars, scanning>>
 
 KWriteMeta(a, name, uuid) ==
   /\ pc[a] = "k_wmeta"
@@ -903,7 +940,7 @@ KWriteMeta(a, name, uuid) ==
   /\ metaTime' = (name :> clock) @@ metaTime
   /\ loc' = [loc EXCEPT ![a].target = name.u, ![a].nextVer = 0]
   /\ pc' = [pc EXCEPT ![a] = "k_whint"]
-  /\ UNCHANGED <<hint, lists, mans, present, ftime, markers, mtimeM, clock, lockHolder, rlock, opi, att, faults, lease, ghostVars>>
+  /\ UNCHANGED <<hint, lists, mans, present, ftime, markers, mtimeM, clock, lockHolder, rlock, opi, att, faults, lease, ghostVars, scanning>>
 
 \* the pointer write of an initialisation: create-if-absent on CAS backends, plain overwrite otherwise
 KWriteHint(a) ==
@@ -915,19 +952,19 @@ KWriteHint(a) ==
      ELSE UNCHANGED <<hint, commitLog>>          \* lost the creation race: TableExistsError, adopt
   /\ pc' = [pc EXCEPT ![a] = "k_unlock"]
   /\ UNCHANGED <<metas, metaTime, lists, mans, present, ftime, markers, mtimeM, clock, lockHolder, rlock, opi, att, loc, faults, lease,
-                 serial, tsOf, sidOfOp, outcomes, reads, deleted, initBody, joined>>
+                 serial, tsOf, sidOfOp, outcomes, reads, deleted, initBody, joined, scanning>>
 
 KDUnlock(a) ==
   /\ pc[a] = "k_unlock"
   /\ lockHolder' = IF lockHolder = a THEN "none" ELSE lockHolder
   /\ pc' = [pc EXCEPT ![a] = "k_tunlock"]
-  /\ UNCHANGED <<storageVars, clock, rlock, opi, att, loc, faults, lease, ghostVars>>
+  /\ UNCHANGED <<storageVars, clock, rlock, opi, att, loc, faults, lease, ghostVars, scanning>>
 
 KTUnlock(a) ==
   /\ pc[a] = "k_tunlock"
   /\ rlock' = [rlock EXCEPT ![Handle[a]] = "none"]
   /\ pc' = [pc EXCEPT ![a] = IF loc[a].err = "none" THEN "k_done" ELSE "k_failed"]
-  /\ UNCHANGED <<storageVars, clock, lockHolder, opi, att, loc, faults, lease, ghostVars>>
+  /\ UNCHANGED <<storageVars, clock, lockHolder, opi, att, loc, faults, lease, ghostVars, scanning>>
 
 \* the constructor returns: the caller is on whatever table is resolvable now
 KReturn(a) ==
@@ -936,7 +973,7 @@ KReturn(a) ==
   /\ joined' = joined \cup {ResolvedBody.uuid}
   /\ pc' = [pc EXCEPT ![a] = "idle"]
   /\ opi' = [opi EXCEPT ![a] = @ + 1]
-  /\ UNCHANGED <<storageVars, clock, lockHolder, rlock, att, loc, faults, lease, commitLog, serial, tsOf, sidOfOp, reads, deleted, initBody>>
+  /\ UNCHANGED <<storageVars, clock, lockHolder, rlock, att, loc, faults, lease, commitLog, serial, tsOf, sidOfOp, reads, deleted, initBody, scanning>>
 
 \* a storage call of create/open fails: the constructor raises (after releasing the locks it holds)
 KFault(a) ==
@@ -946,14 +983,14 @@ KFault(a) ==
   /\ faults' = faults - 1
   /\ loc' = [loc EXCEPT ![a].err = "error"]
   /\ pc' = [pc EXCEPT ![a] = IF pc[a] = "k_open" THEN "k_failed" ELSE "k_unlock"]
-  /\ UNCHANGED <<storageVars, clock, lockHolder, rlock, opi, att, lease, ghostVars>>
+  /\ UNCHANGED <<storageVars, clock, lockHolder, rlock, opi, att, lease, ghostVars, scanning>>
 
 KReturnErr(a) ==
   /\ pc[a] = "k_failed"
   /\ outcomes' = [outcomes EXCEPT ![a] = Append(@, "error")]
   /\ pc' = [pc EXCEPT ![a] = "idle"]
   /\ opi' = [opi EXCEPT ![a] = @ + 1]
-  /\ UNCHANGED <<storageVars, clock, lockHolder, rlock, att, loc, faults, lease, commitLog, serial, tsOf, sidOfOp, reads, deleted, initBody, joined>>
+  /\ UNCHANGED <<storageVars, clock, lockHolder, rlock, att, loc, faults, lease, commitLog, serial, tsOf, sidOfOp, reads, deleted, initBody, joined, scanning>>
 
 CreateNext(a) ==
   \/ KFault(a) \/ KReturnErr(a)
@@ -966,7 +1003,8 @@ CreateNext(a) ==
 DsResolve(a, name) ==
   /\ pc[a] = "ds_resolve"
   /\ HandleFree(a)
-  /\ CanResolve(name)
+  /\ Resolves(a, name)
+  /\ scanning' = scanning \ {a}
   /\ name # NoName
   /\ LET b == metas[name]
          key == CurOp(a).who
@@ -993,7 +1031,8 @@ RBegin(a, name) ==
   /\ pc[a] = "idle"
   /\ opi[a] <= Len(Prog[a])
   /\ HandleFree(a)
-  /\ CanResolve(name)
+  /\ Resolves(a, name)
+  /\ scanning' = scanning \ {a}
   /\ name # NoName
   /\ LET b == metas[name] IN
      /\ loc' = [loc EXCEPT ![a] = [EmptyLoc EXCEPT !.from = Len(commitLog), !.body = b]]
@@ -1008,7 +1047,7 @@ RReadList(a) ==
           /\ pc' = [pc EXCEPT ![a] = IF Len(lists[l]) = 0 THEN "r_data" ELSE "r_man"]
      ELSE /\ loc' = [loc EXCEPT ![a].err = "raise"]
           /\ pc' = [pc EXCEPT ![a] = "r_return"]
-  /\ UNCHANGED <<storageVars, clock, lockHolder, rlock, opi, att, faults, lease, ghostVars>>
+  /\ UNCHANGED <<storageVars, clock, lockHolder, rlock, opi, att, faults, lease, ghostVars, scanning>>
 
 RReadManifest(a) ==
   /\ pc[a] = "r_man"
@@ -1018,7 +1057,7 @@ RReadManifest(a) ==
           /\ pc' = [pc EXCEPT ![a] = IF Len(loc[a].todo) = 1 THEN "r_data" ELSE "r_man"]
      ELSE /\ loc' = [loc EXCEPT ![a].err = "raise"]
           /\ pc' = [pc EXCEPT ![a] = "r_return"]
-  /\ UNCHANGED <<storageVars, clock, lockHolder, rlock, opi, att, faults, lease, ghostVars>>
+  /\ UNCHANGED <<storageVars, clock, lockHolder, rlock, opi, att, faults, lease, ghostVars, scanning>>
 
 RReadData(a, f) ==
   /\ pc[a] = "r_data"
@@ -1029,7 +1068,7 @@ RReadData(a, f) ==
           /\ UNCHANGED pc
      ELSE /\ loc' = [loc EXCEPT ![a].err = "raise"]
           /\ pc' = [pc EXCEPT ![a] = "r_return"]
-  /\ UNCHANGED <<storageVars, clock, lockHolder, rlock, opi, att, faults, lease, ghostVars>>
+  /\ UNCHANGED <<storageVars, clock, lockHolder, rlock, opi, att, faults, lease, ghostVars, scanning>>
 
 \* a storage call of a read fails (transient error): the read raises, whatever it had got so far is not an answer.
 \* In particular a failing read of the POINTER raises - it is not "pointer missing", which would send the reader to
@@ -1043,7 +1082,7 @@ RFault(a) ==
           /\ loc' = [loc EXCEPT ![a] = [EmptyLoc EXCEPT !.from = Len(commitLog), !.err = "raise", !.body = NoBody]]
      ELSE loc' = [loc EXCEPT ![a].err = "raise"]
   /\ pc' = [pc EXCEPT ![a] = "r_return"]
-  /\ UNCHANGED <<storageVars, clock, lockHolder, rlock, opi, att, lease, ghostVars>>
+  /\ UNCHANGED <<storageVars, clock, lockHolder, rlock, opi, att, lease, ghostVars, scanning>>
 
 RReturn(a) ==
   /\ \/ pc[a] = "r_return"
@@ -1053,7 +1092,7 @@ RReturn(a) ==
                              err |-> loc[a].err, cur |-> loc[a].body.cur])
   /\ pc' = [pc EXCEPT ![a] = "idle"]
   /\ opi' = [opi EXCEPT ![a] = @ + 1]
-  /\ UNCHANGED <<storageVars, clock, lockHolder, rlock, att, loc, faults, lease, commitLog, serial, tsOf, sidOfOp, outcomes, deleted, initBody, joined>>
+  /\ UNCHANGED <<storageVars, clock, lockHolder, rlock, att, loc, faults, lease, commitLog, serial, tsOf, sidOfOp, outcomes, deleted, initBody, joined, scanning>>
 
 (***************************************************************************)
 (* Collector (garbage_collector.py:54-270).                                *)
@@ -1090,7 +1129,8 @@ GBegin(a, name) ==
   /\ pc[a] = (IF FixGCOrder THEN "g_begin" ELSE "idle")
   /\ opi[a] <= Len(Prog[a])
   /\ HandleFree(a)
-  /\ CanResolve(name)
+  /\ Resolves(a, name)
+  /\ scanning' = scanning \ {a}
   /\ name # NoName
   /\ LET b == metas[name]
          r == ReachOf(b)
@@ -1111,7 +1151,7 @@ GStampM(a, now) ==
   /\ clock' = now
   /\ loc' = [loc EXCEPT ![a] = [(IF FixGCOrder THEN EmptyLoc ELSE loc[a]) EXCEPT !.cutoff = now]]
   /\ pc' = [pc EXCEPT ![a] = "g_markers"]
-  /\ UNCHANGED <<storageVars, lockHolder, rlock, opi, att, faults, lease, ghostVars>>
+  /\ UNCHANGED <<storageVars, lockHolder, rlock, opi, att, faults, lease, ghostVars, scanning>>
 
 \* list metadata/inflight (+ stat and read of every marker): fresh markers protect their target,
 \* abandoned ones are removed (GSweepMarker) and their files fall back to ordinary orphan handling
@@ -1121,7 +1161,7 @@ GLoadMarkers(a) ==
   /\ loc' = [loc EXCEPT ![a].prot = {f \in markers : FreshMarker(f, loc[a].cutoff)},
                         ![a].mseen = {f \in markers : ~FreshMarker(f, loc[a].cutoff)}]
   /\ pc' = [pc EXCEPT ![a] = IF FixGCOrder THEN "g_begin" ELSE AfterBegin]
-  /\ UNCHANGED <<storageVars, clock, lockHolder, rlock, opi, att, faults, lease, ghostVars>>
+  /\ UNCHANGED <<storageVars, clock, lockHolder, rlock, opi, att, faults, lease, ghostVars, scanning>>
 
 GSweepMarker(a, f) ==
   /\ Role[a] = "collector"
@@ -1129,7 +1169,7 @@ GSweepMarker(a, f) ==
   /\ f \in loc[a].mseen
   /\ markers' = markers \ {f}
   /\ loc' = [loc EXCEPT ![a].mseen = @ \ {f}]
-  /\ UNCHANGED <<hint, metas, metaTime, lists, mans, present, ftime, mtimeM, clock, lockHolder, rlock, pc, opi, att, faults, lease, ghostVars>>
+  /\ UNCHANGED <<hint, metas, metaTime, lists, mans, present, ftime, mtimeM, clock, lockHolder, rlock, pc, opi, att, faults, lease, ghostVars, scanning>>
 
 Eligible(a, f) == f \notin loc[a].reach /\ f \notin loc[a].prot /\ f \in present /\ ftime[f] <= loc[a].cutoff
 \* the listed files the current sweep is about
@@ -1149,7 +1189,7 @@ GStamp(a, now) ==
   /\ loc' = [loc EXCEPT ![a].cutoff = now - GraceOf(a), ![a].cand = IF FixGCFail THEN @ ELSE {}]
   /\ pc' = [pc EXCEPT ![a] = IF FixGCFail THEN (IF pc[a] = "g_stampd" THEN "g_sweepd" ELSE "g_sweepm")
                                           ELSE (IF pc[a] = "g_cutd" THEN "g_listd" ELSE "g_listm")]
-  /\ UNCHANGED <<storageVars, lockHolder, rlock, opi, att, faults, lease, ghostVars>>
+  /\ UNCHANGED <<storageVars, lockHolder, rlock, opi, att, faults, lease, ghostVars, scanning>>
 
 \* listing of data/ (g_listd) or metadata/manifests/ (g_listm)
 GList(a) ==
@@ -1161,7 +1201,7 @@ GList(a) ==
                                                           ELSE {f \in present : ~IsDataFile(f)})]
   /\ pc' = [pc EXCEPT ![a] = IF pc[a] = "g_listd" THEN (IF FixGCFail THEN "g_listm" ELSE "g_sweepd")
                                                   ELSE (IF FixGCFail THEN "g_stampd" ELSE "g_sweepm")]
-  /\ UNCHANGED <<storageVars, clock, lockHolder, rlock, opi, att, faults, lease, ghostVars>>
+  /\ UNCHANGED <<storageVars, clock, lockHolder, rlock, opi, att, faults, lease, ghostVars, scanning>>
 
 (* ---- collector failure handling (C07) ---- *)
 \* a reachable manifest list / manifest cannot be read (missing, unparseable, transient error):
@@ -1170,7 +1210,7 @@ GFaultReach(a) ==
   /\ Role[a] = "collector"
   /\ pc[a] = (IF FixGCOrder THEN AfterBegin ELSE "g_stampm")
   /\ pc' = [pc EXCEPT ![a] = "g_abort"]
-  /\ UNCHANGED <<storageVars, clock, lockHolder, rlock, opi, att, loc, faults, lease, ghostVars>>
+  /\ UNCHANGED <<storageVars, clock, lockHolder, rlock, opi, att, loc, faults, lease, ghostVars, scanning>>
 
 \* the marker directory cannot be listed.  As the code was: treated as "no markers".
 GFaultMarkList(a) ==
@@ -1180,7 +1220,7 @@ GFaultMarkList(a) ==
      THEN pc' = [pc EXCEPT ![a] = "g_abort"] /\ UNCHANGED loc
      ELSE /\ loc' = [loc EXCEPT ![a].prot = {}, ![a].mseen = {}]
           /\ pc' = [pc EXCEPT ![a] = IF FixGCOrder THEN "g_begin" ELSE AfterBegin]
-  /\ UNCHANGED <<storageVars, clock, lockHolder, rlock, opi, att, faults, lease, ghostVars>>
+  /\ UNCHANGED <<storageVars, clock, lockHolder, rlock, opi, att, faults, lease, ghostVars, scanning>>
 
 \* a marker's payload cannot be read.  As the code was: its target is assumed to be data/<name>, so a
 \* marker protecting a manifest or a list stops protecting it.  Repaired: the name stays protected.
@@ -1189,7 +1229,7 @@ GMarkUnreadable(a, f) ==
   /\ pc[a] \in {"g_begin", "g_cutd", "g_listd"}
   /\ f \in loc[a].prot \cup loc[a].mseen
   /\ loc' = [loc EXCEPT ![a].prot = IF ~FixGCFail /\ ~IsDataFile(f) THEN @ \ {f} ELSE @]
-  /\ UNCHANGED <<storageVars, clock, lockHolder, rlock, pc, opi, att, faults, lease, ghostVars>>
+  /\ UNCHANGED <<storageVars, clock, lockHolder, rlock, pc, opi, att, faults, lease, ghostVars, scanning>>
 
 \* an abandoned marker could not be removed: it keeps protecting its file
 GMarkUndeletable(a, f) ==
@@ -1197,14 +1237,14 @@ GMarkUndeletable(a, f) ==
   /\ pc[a] \in {"g_begin", "g_cutd", "g_listd"}
   /\ f \in loc[a].mseen
   /\ loc' = [loc EXCEPT ![a].mseen = @ \ {f}, ![a].prot = @ \cup {f}]
-  /\ UNCHANGED <<storageVars, clock, lockHolder, rlock, pc, opi, att, faults, lease, ghostVars>>
+  /\ UNCHANGED <<storageVars, clock, lockHolder, rlock, pc, opi, att, faults, lease, ghostVars, scanning>>
 
 \* a directory cannot be listed, or the listing contains a path outside the table: abort
 GFaultList(a) ==
   /\ Role[a] = "collector"
   /\ pc[a] \in {"g_listd", "g_listm"}
   /\ pc' = [pc EXCEPT ![a] = "g_abort"]
-  /\ UNCHANGED <<storageVars, clock, lockHolder, rlock, opi, att, loc, faults, lease, ghostVars>>
+  /\ UNCHANGED <<storageVars, clock, lockHolder, rlock, opi, att, loc, faults, lease, ghostVars, scanning>>
 
 \* refresh() itself fails: collect() raises before anything else happened
 GFaultEarly(a) ==
@@ -1212,7 +1252,7 @@ GFaultEarly(a) ==
   /\ pc[a] \in {"idle", "g_begin", "g_stampm", "g_listd", "g_cutd"}
   /\ opi[a] <= Len(Prog[a])
   /\ pc' = [pc EXCEPT ![a] = "g_abort"]
-  /\ UNCHANGED <<storageVars, clock, lockHolder, rlock, opi, att, loc, faults, lease, ghostVars>>
+  /\ UNCHANGED <<storageVars, clock, lockHolder, rlock, opi, att, loc, faults, lease, ghostVars, scanning>>
 
 \* the listing contains a path outside the table root.  As the code was: the guard sits inside the
 \* delete loop (entries before the escaping one are processed first).  Repaired: every listed path
@@ -1225,7 +1265,7 @@ GListEscaping(a) ==
      ELSE /\ loc' = [loc EXCEPT ![a].esc = TRUE,
                                 ![a].cand = IF pc[a] = "g_listd" THEN {f \in present : IsDataFile(f)} ELSE {f \in present : ~IsDataFile(f)}]
           /\ pc' = [pc EXCEPT ![a] = IF pc[a] = "g_listd" THEN "g_sweepd" ELSE "g_sweepm"]
-  /\ UNCHANGED <<storageVars, clock, lockHolder, rlock, opi, att, faults, lease, ghostVars>>
+  /\ UNCHANGED <<storageVars, clock, lockHolder, rlock, opi, att, faults, lease, ghostVars, scanning>>
 
 \* a candidate cannot be stat'ed or deleted: it is skipped (nothing live is at risk)
 GSkip(a, f) ==
@@ -1233,7 +1273,7 @@ GSkip(a, f) ==
   /\ pc[a] \in {"g_sweepd", "g_sweepm"}
   /\ f \in CandNow(a)
   /\ loc' = [loc EXCEPT ![a].cand = @ \ {f}]
-  /\ UNCHANGED <<storageVars, clock, lockHolder, rlock, pc, opi, att, faults, lease, ghostVars>>
+  /\ UNCHANGED <<storageVars, clock, lockHolder, rlock, pc, opi, att, faults, lease, ghostVars, scanning>>
 
 \* one listed file is deleted: only if unreachable, unprotected and older than the cutoff
 GDelete(a, f) ==
@@ -1244,7 +1284,7 @@ GDelete(a, f) ==
   /\ present' = present \ {f}
   /\ deleted' = deleted \cup {[f |-> f, by |-> a, i |-> opi[a], at |-> loc[a].from]}
   /\ loc' = [loc EXCEPT ![a].cand = @ \ {f}]
-  /\ UNCHANGED <<hint, metas, metaTime, lists, mans, ftime, markers, mtimeM, clock, lockHolder, rlock, pc, opi, att, faults, lease, commitLog, serial, tsOf, sidOfOp, outcomes, reads, initBody, joined>>
+  /\ UNCHANGED <<hint, metas, metaTime, lists, mans, ftime, markers, mtimeM, clock, lockHolder, rlock, pc, opi, att, faults, lease, commitLog, serial, tsOf, sidOfOp, outcomes, reads, initBody, joined, scanning>>
 
 \* another collector removed the candidate after this one had stat'ed it: deleting a file that is gone succeeds silently
 GDeleteGone(a, f) ==
@@ -1254,7 +1294,7 @@ GDeleteGone(a, f) ==
   /\ f \notin present
   /\ f \notin loc[a].reach /\ f \notin loc[a].prot
   /\ loc' = [loc EXCEPT ![a].cand = @ \ {f}]
-  /\ UNCHANGED <<storageVars, clock, lockHolder, rlock, pc, opi, att, faults, lease, ghostVars>>
+  /\ UNCHANGED <<storageVars, clock, lockHolder, rlock, pc, opi, att, faults, lease, ghostVars, scanning>>
 
 GReturn(a) ==
   /\ Role[a] = "collector"
@@ -1264,13 +1304,13 @@ GReturn(a) ==
   /\ outcomes' = [outcomes EXCEPT ![a] = Append(@, IF pc[a] = "g_abort" \/ loc[a].esc THEN "aborted" ELSE "ok")]
   /\ pc' = [pc EXCEPT ![a] = "idle"]
   /\ opi' = [opi EXCEPT ![a] = @ + 1]
-  /\ UNCHANGED <<storageVars, clock, lockHolder, rlock, att, loc, faults, lease, commitLog, serial, tsOf, sidOfOp, reads, deleted, initBody, joined>>
+  /\ UNCHANGED <<storageVars, clock, lockHolder, rlock, att, loc, faults, lease, commitLog, serial, tsOf, sidOfOp, reads, deleted, initBody, joined, scanning>>
 
 GFaultReachB(a) ==
   /\ Role[a] = "collector"
   /\ pc[a] = (IF FixGCOrder THEN AfterBegin ELSE "g_stampm")
   /\ pc' = [pc EXCEPT ![a] = "g_abort"]
-  /\ UNCHANGED <<storageVars, clock, lockHolder, rlock, opi, att, loc, lease, ghostVars>>
+  /\ UNCHANGED <<storageVars, clock, lockHolder, rlock, opi, att, loc, lease, ghostVars, scanning>>
 
 GFaultMarkListB(a) ==
   /\ Role[a] = "collector"
@@ -1279,34 +1319,34 @@ GFaultMarkListB(a) ==
      THEN pc' = [pc EXCEPT ![a] = "g_abort"] /\ UNCHANGED loc
      ELSE /\ loc' = [loc EXCEPT ![a].prot = {}, ![a].mseen = {}]
           /\ pc' = [pc EXCEPT ![a] = IF FixGCOrder THEN "g_begin" ELSE "g_cutd"]
-  /\ UNCHANGED <<storageVars, clock, lockHolder, rlock, opi, att, lease, ghostVars>>
+  /\ UNCHANGED <<storageVars, clock, lockHolder, rlock, opi, att, lease, ghostVars, scanning>>
 
 GFaultListB(a) ==
   /\ Role[a] = "collector"
   /\ pc[a] \in {"g_listd", "g_listm"}
   /\ pc' = [pc EXCEPT ![a] = "g_abort"]
-  /\ UNCHANGED <<storageVars, clock, lockHolder, rlock, opi, att, loc, lease, ghostVars>>
+  /\ UNCHANGED <<storageVars, clock, lockHolder, rlock, opi, att, loc, lease, ghostVars, scanning>>
 
 GMarkUnreadableB(a, f) ==
   /\ Role[a] = "collector"
   /\ pc[a] \in {"g_begin", "g_cutd"}
   /\ f \in loc[a].prot \cup loc[a].mseen
   /\ loc' = [loc EXCEPT ![a].prot = IF ~FixGCFail /\ ~IsDataFile(f) THEN @ \ {f} ELSE @]
-  /\ UNCHANGED <<storageVars, clock, lockHolder, rlock, pc, opi, att, lease, ghostVars>>
+  /\ UNCHANGED <<storageVars, clock, lockHolder, rlock, pc, opi, att, lease, ghostVars, scanning>>
 
 GMarkUndeletableB(a, f) ==
   /\ Role[a] = "collector"
   /\ pc[a] \in {"g_begin", "g_cutd"}
   /\ f \in loc[a].mseen
   /\ loc' = [loc EXCEPT ![a].mseen = @ \ {f}, ![a].prot = @ \cup {f}]
-  /\ UNCHANGED <<storageVars, clock, lockHolder, rlock, pc, opi, att, lease, ghostVars>>
+  /\ UNCHANGED <<storageVars, clock, lockHolder, rlock, pc, opi, att, lease, ghostVars, scanning>>
 
 GSkipB(a, f) ==
   /\ Role[a] = "collector"
   /\ pc[a] \in {"g_sweepd", "g_sweepm"}
   /\ f \in CandNow(a)
   /\ loc' = [loc EXCEPT ![a].cand = @ \ {f}]
-  /\ UNCHANGED <<storageVars, clock, lockHolder, rlock, pc, opi, att, lease, ghostVars>>
+  /\ UNCHANGED <<storageVars, clock, lockHolder, rlock, pc, opi, att, lease, ghostVars, scanning>>
 
 CollectorNext(a) ==
   \/ \E n \in DOMAIN metas : GBegin(a, n)
@@ -1352,6 +1392,7 @@ CommitterNext(a) ==
   \/ \E n \in DOMAIN metas \cup {NoName} : Validate(a, n)
   \/ StampUpdate(a, NowVal)
   \/ \E n \in DOMAIN metas \cup {NoName, hint.name} : ReadVersion(a, n)
+  \/ ReadEtag(a)
   \/ WriteMeta(a, MName(a))
   \/ Fence(a) \/ FlipHint(a) \/ DUnlock(a) \/ TUnlock(a) \/ Backoff(a)
   \/ ("after" \in FaultKinds /\ AfterMetaWriteFail(a))
@@ -1384,6 +1425,7 @@ DamageNext ==
 
 Next ==
   \/ DamageNext
+  \/ \E a \in Actors : AtResolvePoint(a) /\ SeeHintUnusable(a)
   \/ CrashOK /\ \E a \in Committers : Crash(a)
   \/ \E a \in Committers : CommitterNext(a)
   \/ \E a \in Readers : ReaderNext(a)
